@@ -7,6 +7,7 @@ import (
 	"os"
 	"sort"
 	"strings"
+	"time"
 	"unicode/utf8"
 
 	"verifsim/internal/comp"
@@ -199,7 +200,7 @@ func atomsOf(f *model.File) *atomSet {
 }
 
 // planEnvs builds the environments one program is run under.
-func planEnvs(prop string, f *model.File, runSeed uint64, dom int, vals []int, thorough bool) envPlan {
+func planEnvs(prop string, f *model.File, runSeed uint64, dom int, vals []int, thorough, heavy bool) envPlan {
 	r := rng.New(rng.Sub(runSeed, "env"))
 	biases := []float64{0.2, 0.5, 0.8}
 	base := func(i int) env.Env {
@@ -216,6 +217,13 @@ func planEnvs(prop string, f *model.File, runSeed uint64, dom int, vals []int, t
 	limit := 512
 	if thorough {
 		limit = 4096
+	}
+	if heavy {
+		// big / stress-shaped programs: every execution is long, so fewer of them
+		limit = 96
+		if thorough {
+			limit = 384
+		}
 	}
 	switch prop {
 	case "C02":
@@ -622,7 +630,7 @@ func CosimWorker(pm *Params) (*Stats, []*Failure) {
 		lm := or.Bool()
 		layoutSeed := rng.Sub(runSeed, "layout")
 		p := buildProgram(f, style, layoutSeed, lm)
-		plan := planEnvs(prop, f, runSeed, cfg.Dom, cfg.Vals, pm.Thorough)
+		plan := planEnvs(prop, f, runSeed, cfg.Dom, cfg.Vals, pm.Thorough, cfg.Big || i%64 == 17)
 		if cfg.DriveDeep {
 			// game states that walk down a deep nest: most flags set, switched vars mostly 1
 			for k := 0; k < 8; k++ {
@@ -632,7 +640,12 @@ func CosimWorker(pm *Params) (*Stats, []*Failure) {
 		cc.rejected = ""
 		cc.digest = &Digest{}
 		before := cc.evals
+		t0 := time.Now()
 		fail := cosimEval(prop, p, &plan, cc, "")
+		if d := time.Since(t0); d > 20*time.Second {
+			// diagnostics only (never part of a verdict): a single run that takes this long
+			fmt.Fprintf(os.Stderr, "SLOW: property=%s run=%d took %.0fs (%d bytes of source, %d environments, %d entries)\n", prop, i, d.Seconds(), len(p.src), len(plan.envs), len(p.ents))
+		}
 		st.Runs++
 		st.Programs++
 		total.Add(cc.digest.Hex())
